@@ -211,6 +211,11 @@ def _cases(draw):
         f.pop("_langs", None)
         f["args"] = {}
         case["gen_form"] = f
+        if g.p("_", 0.35):
+            # a process whose locale encoding is not UTF-8 (the C locale here; cp1252 on Windows is the same class): the XForm file is
+            # UTF-8 whatever the locale says.  The standard streams stay UTF-8 so that only files are in play.
+            case["locale"] = "ascii"
+            f.setdefault("settings", {})["form_title"] = g.pick(["Enquête ménage", "Überblick", "調査", "Опрос"])
     return case
 
 
@@ -240,6 +245,7 @@ class Box:
         self.tmp = os.path.join(self.root, "tmp")
         self.out = os.path.join(self.root, "out")
         outcome = case["outcome"]
+        self.locale = case.get("locale")
         raw, self.expected_lines, raw_bytes = render_lines(case["stderr"])
         self.raw = raw
         path_dirs = [os.path.join(self.root, "bin")]
@@ -274,6 +280,10 @@ class Box:
         e = {k: v for k, v in os.environ.items() if k not in ("PYXFORM_VERIF",)}
         e.update(PATH=self.path, TMPDIR=self.tmp, TEMP=self.tmp, TMP=self.tmp, VF_SCENARIO_DIR=self.scn, PYTHONPATH=REPO,
                  PYTHONDONTWRITEBYTECODE="1", PYTHONHASHSEED="0")
+        if self.locale == "ascii":
+            for k in [k for k in e if k.startswith("LC_") or k in ("LANG", "LANGUAGE")]:
+                del e[k]
+            e.update(LC_ALL="C", PYTHONUTF8="0", PYTHONCOERCECLOCALE="0", PYTHONIOENCODING="utf-8")
         return e
 
     def started(self):
@@ -375,6 +385,8 @@ def _evaluate(case, box, out):
     outcome, entry, pretty = case["outcome"], case["entry"], bool(case.get("pretty"))
     cell = f"{outcome}|{entry}"
     out.label(f"outcome:{outcome}", f"entry:{entry}", f"form:{case['form']}")
+    if case.get("locale"):
+        out.label("locale:" + case["locale"])
     for ln in case["stderr"]:
         out.label({"l": "line:plain", "p": "line:path", "k": "line:kept-path", "m": "line:kept-path", "x": "line:prefix", "s": "line:stack", "d": "line:dup", "b": "line:non-utf8"}[ln[0]])
     src = write_input(box, case)
